@@ -246,6 +246,32 @@ def run(ctx):
             vals = np.array([unbits(x) for x in t[1:]]).reshape(Xt.shape) if t[0] == 'ok' and len(t) - 1 == Xt.size else None
             if vals is None or not np.allclose(vals, Xt, rtol=1e-11, atol=1e-13, equal_nan=True):
                 ctx.mismatch('RBF feature formula', tag, Xt.tolist(), None if vals is None else vals.tolist())
+    # SIZE form + results already handed out: many samples x many centres (beyond any buffer threshold); the features
+    # returned for one matrix must follow the formula, and must STILL do so after another matrix of the same size was lifted
+    for epf in (False, True):
+        for name in ('gaussian', 'multiquadric'):
+            rs = np.random.RandomState(ctx.rng.randint(0, 2 ** 31 - 1))
+            nx, nu, nrow, ncen = 2, 1, 400, 60
+            Cn = rs.uniform(-1.5, 1.5, (ncen, nx + nu))
+            lab = np.repeat([0.0, 4.0], nrow // 2)[:, None]
+            Xa, Xb = rs.uniform(-1.5, 1.5, (nrow, nx + nu)), rs.uniform(-1.5, 1.5, (nrow, nx + nu))
+            lf = pykoop.RbfLiftingFn(rbf=name, centers=pykoop.DataCenters(centers=Cn), shape=0.75)
+            full = (lambda M: np.hstack((lab, M))) if epf else (lambda M: M)
+            lf.fit(full(Xa), n_inputs=nu, episode_feature=epf)
+            Ta = lf.transform(full(Xa))
+            tag_r = {'rbf': name, 'shape': 0.75, 'offset': None, 'nx': nx, 'nu': nu, 'size_form': f'{nrow} samples x {ncen} centres',
+                     'episode_feature': epf}
+            ctx.count('size form / returned results')
+            ctx.record_case(tag_r, True)
+            why = oracle_rbf(tag_r, Xa, Ta[:, (1 if epf else 0):], Cn)
+            if not why:
+                lf.transform(full(Xb))
+                lf.lift_state(full(Xb)[:, :(1 if epf else 0) + nx])
+                why = oracle_rbf(tag_r, Xa, Ta[:, (1 if epf else 0):], Cn)
+                if why:
+                    why = 'the lifted matrix returned for one data matrix was overwritten by a later call on the same estimator: ' + why
+            if why:
+                ctx.fail(why, tag_r, {'part': 'rbf_formula', 'rbf': name, 'size': 'large'})
     for seed_kind in ('int', 'instance'):
         for _ in range(ctx.n(2, 10)):
             res = independence_probe(ctx.rng, seed_kind)
